@@ -6,10 +6,10 @@ CONSTANTS
   DevChain = FALSE
   DevDang = FALSE
   DevUnder = FALSE
-  DevDup = TRUE
-  DevClash = TRUE
-  DevBmDang = TRUE
-  Allowed = {"ok", "pageorder.dupkids", "pageorder.numclash", "bookmark.dangling.capture"}
+  DevDup = FALSE
+  DevClash = FALSE
+  DevBmDang = FALSE
+  Allowed = {"ok"}
   Emit = TRUE
   EmitMod = 8
 INVARIANTS Refines Consistent FunctionForm RepairedRefines EmitInv
